@@ -20,7 +20,7 @@ if sandbox:
     shutil.rmtree(sandbox, ignore_errors=True)
     os.makedirs(sandbox)
     subprocess.run(['cp', '-a', '/verif', f'{sandbox}/verif'], check=True)
-    subprocess.run(['git', 'clone', '-q', '/repo', f'{sandbox}/repo'], check=True)
+    subprocess.run(['rsync', '-a', '--exclude', 'target', '/repo/', f'{sandbox}/repo/'], check=True)
     shutil.rmtree(f'{sandbox}/verif/.work/cache', ignore_errors=True)
     VERIF, REPO = f'{sandbox}/verif', f'{sandbox}/repo'
     env['VERIF_REPO'] = REPO
